@@ -40,9 +40,13 @@ def parseImpl (impl : String) : Option (List Dlv × List (Nat × Nat)) :=
     else none
   | _ => none
 
-def parseEv (nf : Nat) : List String → Option Ev
+/-- `write 3 tag`: the remuxed MPEG-4 Video frame comes from C22's model run on the frames written so far -/
+def parseEv (nf : Nat) (cfg : Bytes) : List String → Option Ev
   | ["add", r, mask] => do pure (.add (← r.toNat?) (maskToSubs (← mask.toNat?) nf))
-  | ["write", f, tag] => do pure (.write (← f.toNat?) (← tag.toNat?))
+  | ["write", f, tag] => do
+    let f ← f.toNat?
+    let tag ← tag.toNat?
+    pure (.write f tag (if f == 3 then (C22.stepM4V cfg (writtenM4V tag)).2 else []))
   | ["done", r] => do pure (.done (← r.toNat?))
   | ["fail", r] => do pure (.fail (← r.toNat?))
   | ["remove", r] => do pure (.remove (← r.toNat?))
@@ -50,17 +54,28 @@ def parseEv (nf : Nat) : List String → Option Ev
 
 structure DD extends D where
   nf : Nat := 0
+  /-- configuration of the MPEG-4 Video format (format 3), tracked with C22's updater model -/
+  cfg : Bytes := []
 
 def stepD (d : DD) (op impl : String) : DD × DrvOut :=
   match words op with
-  | ["reset", cap, nf] =>
+  | "reset" :: cap :: nf :: _share =>
     match cap.toNat?, nf.toNat? with
     | some cap, some nf => ({ st := { cap := cap }, sp := { cap := cap }, ok := true, nf := nf }, { model := "ok" })
     | _, _ => (d, { model := "bad-op" })
+  | ["final"] =>
+    -- every delivered unit was retained (not copied) by the harness and is re-read now
+    let model := fmtRetained (d.st.rds.map fun r => (r.id, r.delivered.map expectedPayload))
+    let atDelivery := fmtRetained (d.sp.rds.map fun r => (r.id, r.got))
+    (d, { model, spec := if impl == atDelivery then "ok"
+      else "FAIL a unit handed to a reader was modified after delivery (its payload no longer is what the callback received)" })
   | ws =>
-    match parseEv d.nf ws with
+    match parseEv d.nf d.cfg ws with
     | none => (d, { model := "bad-op" })
     | some ev =>
+      let d := match ev with
+        | .write 3 tag _ => { d with cfg := (C22.stepM4V d.cfg (writtenM4V tag)).1 }
+        | _ => d
       let st' := step d.st ev
       let model := fmtAnswer d.st st'
       let extra := (words impl).drop 2
